@@ -452,6 +452,11 @@ def contracts(reg):
             out.append(rf.populate_contract(pf, Maker, FnContract, Raises))
     except Exception:  # noqa  (the pack's contracts() never lets an exception escape)
         pass
+    try:
+        rf.install_strip(reg)
+        out.extend(rf.post_init_contracts(loader.module(DT_PY), DT_PY, Maker, FnContract, Raises))
+    except Exception:  # noqa
+        pass
     out.extend(cli_contracts())
     out.extend(store_site_contracts(reg))
     out = [c_ for c_ in out if not (c_.target in OPTIONAL_HELPERS and not _exists(c_.target))]
@@ -1039,8 +1044,12 @@ def registry(repo, tier):
                                   DT_PY, kind="registry", backend="ground", definite=False))
     # __post_init__ only normalises its own fields idempotently (strip / dict mirror)
     bad = []
+    try:
+        verified_pi = {c_.target.split("::")[1].split(".")[0] for c_ in rf.post_init_contracts(d["module"], DT_PY, Maker, FnContract, Raises)}
+    except Exception:  # noqa
+        verified_pi = set()
     for name, info in classes.items():
-        if not info["post_init"]:
+        if not info["post_init"] or name in verified_pi:       # round 7: under a verified idempotence contract of its own
             continue
         cn = d["module"].classes[name]
         fn = [b for b in cn.body if isinstance(b, ast.FunctionDef) and b.name == "__post_init__"][0]
